@@ -143,4 +143,145 @@ theorem run_group_values (st : PSt) (hm : st.mode = .inGroups) (acc : List Strin
     rw [ih _ (by simpa using hm) (acc ++ [g]) (by simp)]
     simp [List.append_assoc]
 
+theorem run_one_arg (st : PSt) (hb : Boundary st.mode) (o : OptName) (ho : o ≠ .groups) (s : String)
+    (a' : Args) (hs : setOpt st.args o s = some a') :
+    run st [.opt o, .pos s] = some { st with mode := .idle, args := a' } := by
+  have h1 : stepIdle st (.opt o) = some { st with mode := .needArg o } := by
+    cases o <;> first | exact absurd rfl ho | rfl
+  have h2 : step { st with mode := .needArg o } (.pos s) = some { st with mode := .idle, args := a' } := by
+    simp [step, hs]
+  simp only [run, step_opt_of_boundary st hb, h1, h2]
+
+/-- Running one rendered option from a boundary mode stores it; `--groups` leaves its greedy
+    match open, every other option returns to idle. -/
+theorem run_opt (st : PSt) (hb : Boundary st.mode) (o : Opt) (hok : o.Ok) :
+    run st o.toks =
+      some { st with mode := (if o.isGroups then .inGroups else .idle), args := o.apply st.args } := by
+  cases o with
+  | groups gs =>
+    have h1 : stepIdle st (.opt .groups) =
+        some { st with mode := .inGroups, args := { st.args with groups := some [] } } := rfl
+    simp only [Opt.toks, run, step_opt_of_boundary st hb, h1]
+    rw [run_group_values _ rfl [] rfl gs]
+    simp [Opt.isGroups, Opt.apply]
+  | success s => exact run_one_arg st hb .success (by decide) s _ rfl
+  | failure s => exact run_one_arg st hb .failure (by decide) s _ rfl
+  | dir s => exact run_one_arg st hb .dir (by decide) s _ rfl
+  | logpath s => exact run_one_arg st hb .logpath (by decide) s _ rfl
+  | log s =>
+    obtain ⟨n, hn⟩ := Option.isSome_iff_exists.mp hok.2
+    have := run_one_arg st hb .log (by decide) s { st.args with log := some n } (by simp [setOpt, hn])
+    simpa [Opt.toks, Opt.isGroups, Opt.apply, hn] using this
+
+/-- Mode after a sequence of options, starting from mode `m`. -/
+def modeAfter (m : Mode) (os : List Opt) : Mode :=
+  os.foldl (fun _ o => if o.isGroups then .inGroups else .idle) m
+
+theorem boundary_modeAfter (m : Mode) (hb : Boundary m) (os : List Opt) : Boundary (modeAfter m os) := by
+  induction os generalizing m with
+  | nil => exact hb
+  | cons o os ih =>
+    simp only [modeAfter, List.foldl_cons]
+    apply ih
+    cases o <;> simp [Opt.isGroups, Boundary]
+
+theorem run_opts (st : PSt) (hb : Boundary st.mode) (os : List Opt) (hok : ∀ o ∈ os, o.Ok) :
+    run st (optsToks os) = some { st with mode := modeAfter st.mode os, args := applyOpts st.args os } := by
+  induction os generalizing st with
+  | nil => simp [optsToks, run, modeAfter, applyOpts]
+  | cons o os ih =>
+    have e : optsToks (o :: os) = o.toks ++ optsToks os := by simp [optsToks]
+    rw [e, run_append, run_opt st hb o (hok o (by simp))]
+    simp only [Option.bind_some]
+    rw [ih _ (by cases o <;> simp [Opt.isGroups, Boundary]) (fun x hx => hok x (by simp [hx]))]
+    simp [modeAfter, applyOpts]
+
+/-- Collecting context arguments. -/
+theorem run_ctx (st : PSt) (hm : st.mode = .afterName ∨ st.mode = .inCtx) (cs : List String) :
+    run st (cs.map Tok.pos) =
+      some { st with mode := (if cs = [] then st.mode else .inCtx),
+                     args := { st.args with ctx := st.args.ctx ++ cs } } := by
+  induction cs generalizing st with
+  | nil => simp [run]
+  | cons c cs ih =>
+    simp only [List.map_cons, run]
+    have hs : step st (.pos c) = some { st with mode := .inCtx, args := { st.args with ctx := st.args.ctx ++ [c] } } := by
+      rcases hm with h | h <;> simp [step, h]
+    rw [hs]
+    simp only []
+    rw [ih _ (Or.inr rfl)]
+    simp [List.append_assoc]
+
+theorem applyOpts_name_ctx (a : Args) (n : String) (c : List String) (os : List Opt) :
+    applyOpts { a with name := n, ctx := c } os = { applyOpts a os with name := n, ctx := c } := by
+  induction os generalizing a with
+  | nil => rfl
+  | cons o os ih =>
+    simp only [applyOpts, List.foldl_cons] at ih ⊢
+    have : Opt.apply { a with name := n, ctx := c } o = { Opt.apply a o with name := n, ctx := c } := by
+      cases o <;> rfl
+    rw [this, ih]
+
+theorem applyOpts_name (a : Args) (os : List Opt) : (applyOpts a os).name = a.name := by
+  induction os generalizing a with
+  | nil => rfl
+  | cons o os ih =>
+    simp only [applyOpts, List.foldl_cons] at ih ⊢
+    rw [ih]
+    cases o <;> rfl
+
+theorem applyOpts_ctx (a : Args) (os : List Opt) : (applyOpts a os).ctx = a.ctx := by
+  induction os generalizing a with
+  | nil => rfl
+  | cons o os ih =>
+    simp only [applyOpts, List.foldl_cons] at ih ⊢
+    rw [ih]
+    cases o <;> rfl
+
+theorem erase_dd_of_plain (cs : List String) (h : ∀ s ∈ cs, Plain s) : cs.erase "--" = cs := by
+  apply List.erase_of_not_mem
+  intro hm
+  exact plain_ne_dd (h _ hm) rfl
+
+theorem finish_boundary (st : PSt) (hb : Boundary st.mode) (hn : st.hasName = true) :
+    finish st = some { st.args with ctx := st.args.ctx.erase "--" } := by
+  rcases hb with h | h | h | h <;> simp [finish, h, hn]
+
+theorem modeAfter_last (m : Mode) (os : List Opt) :
+    modeAfter m os = match os.getLast? with
+      | none => m
+      | some o => if o.isGroups then .inGroups else .idle := by
+  induction os generalizing m with
+  | nil => rfl
+  | cons o os ih =>
+    simp only [modeAfter, List.foldl_cons] at ih ⊢
+    rw [ih]
+    cases os with
+    | nil => simp
+    | cons o' os' =>
+      rw [List.getLast?_cons_cons]
+      have : (o' :: os').getLast? = some ((o' :: os').getLast (by simp)) := List.getLast?_eq_some_getLast _
+      rw [this]
+
+/-- `pre` does not end with a `--groups` option (whose greedy `*` would swallow the pipeline name). -/
+def NotEndingInGroups (os : List Opt) : Prop :=
+  match os.getLast? with
+  | none => True
+  | some o => o.isGroups = false
+
+theorem modeAfter_idle (os : List Opt) (h : NotEndingInGroups os) : modeAfter .idle os = .idle := by
+  rw [modeAfter_last]
+  unfold NotEndingInGroups at h
+  cases hl : os.getLast? with
+  | none => rfl
+  | some o => rw [hl] at h; simp [h]
+
+/-- Before the positionals, after any options: argparse is idle or inside `--groups`' match. -/
+theorem modeAfter_idle_or_groups (os : List Opt) :
+    modeAfter .idle os = .idle ∨ modeAfter .idle os = .inGroups := by
+  rw [modeAfter_last]
+  cases os.getLast? with
+  | none => exact .inl rfl
+  | some o => cases o <;> simp [Opt.isGroups]
+
 end Pypyr.Cli
